@@ -4,7 +4,8 @@
 (* outcome is "err", "ok", "panic" or "timeout"; for "ok" the event        *)
 (* carries the SHAPE of the returned profile (ids rank-compressed: only    *)
 (* equality and zero matter; a nil pointer is -1), the outcome of every    *)
-(* follow-up operation (write, copy, compact, each report format) and      *)
+(* follow-up operation (write, copy, compact, rewrite = write, edit,     *)
+(* write again and parse back; each report format) and                     *)
 (* whether the profile survived a second round trip (C01's second          *)
 (* quantifier: all byte strings that Parse accepts).                       *)
 (* Accepted: an error, or a profile that satisfies the validity contract   *)
@@ -34,7 +35,7 @@ Failed(e) ==
              valid    |-> e.outcome = "ok" => ValidShape(e.out),
              followup |-> e.outcome = "ok" => \A i \in DOMAIN e.follow : e.follow[i].outcome \in {"ok", "err"},
              writable |-> e.outcome = "ok" => \A i \in DOMAIN e.follow :
-                             e.follow[i].name \in {"write", "copy", "compact"} => e.follow[i].outcome = "ok",
+                             e.follow[i].name \in {"write", "copy", "compact", "rewrite"} => e.follow[i].outcome = "ok",
              survives |-> e.outcome = "ok" => (e.fix /\ e.bytes) ]
   IN {f \in DOMAIN p : ~p[f]}
 Init == l = 1 /\ bad = {}
